@@ -11,6 +11,7 @@
 -/
 import RosuModel.Props.C07
 import RosuModel.Model.Finalize
+import RosuModel.Lemmas.ToyInt
 namespace Rosu.C07
 open Rosu
 
@@ -227,5 +228,29 @@ theorem finished_values_agree_bytes (bs : List UInt8) (m : Beatmap F P)
     (decodeBytes (difficultyDecoder (F := F) (P := P)) bs).map (·.difficulty) = .ok m.difficulty ∧
     decodeBytes eventsDecoder bs = .ok m.events ∧ decodeBytes colorsDecoder bs = .ok m.colors :=
   (finished_values_agree (F := F) (P := P) (Sched.ofBytes bs)).2.2.1 m h
+
+-- the hypothesis of part 3 is satisfiable on a non-default value (toy scalar `Int`): a two-line file decodes, the
+-- finaliser succeeds, and the title comes back from the Metadata decoder as well
+section Example
+open Rosu.Toy
+
+def exBytes : List UInt8 := utf8Encode (str "[Metadata]\nTitle:x\n")
+
+def exState : BeatmapState Int Int :=
+  { BeatmapState.create latestVersion with metadata := { Metadata.default with title := str "x" } }
+
+example : decodeSched (beatmapDecoder (F := Int) (P := Int)) (Sched.ofBytes exBytes) = .ok exState := by rfl
+
+example : ∃ m : Beatmap Int Int, exState.finish = .ok m ∧ m.metadata.title = str "x" := by
+  cases h : exState.finish with
+  | ok m => exact ⟨m, rfl, by rw [(beatmap_finish_fields _ m h).2.2.1]; rfl⟩
+  | error e =>
+    exfalso
+    simp [BeatmapState.finish, HitObjectsState.finish, exState, BeatmapState.create, HitObjectsState.create,
+      sortByStartTime, postProcessBreaks, finalizeObjects, bind, Except.bind, pure, Except.pure] at h
+
+example : (metadataValue (Sched.ofBytes exBytes)).toOption.map (·.title) = some (str "x") := by decide
+
+end Example
 
 end Rosu.C07
